@@ -7,9 +7,11 @@ ENV = dict(os.environ, GOFLAGS='-mod=mod', GOPROXY='off', GOSUMDB='off', GOTOOLC
 BASE = '/verif/seeded/conformant'; ROOT = '/var/tmp/verif-conf-only'
 only = sys.argv[1]; workers = sys.argv[2] if len(sys.argv) > 2 else '16'
 has = set()
-for l in open('/verif/harness/scale.go'):
-    if l.startswith('func H_C') and only in l:
-        has.add(l[7:10])
+import glob
+for f in glob.glob('/verif/harness/*.go'):
+    for l in open(f):
+        if l.startswith('func H_C') and only in l:
+            has.add(l[7:10])
 bad = 0
 for cid in sorted(os.listdir(BASE)):
     mp = os.path.join(BASE, cid, 'meta.json'); meta = json.load(open(mp))
